@@ -13,7 +13,7 @@ import tokenize
 
 from .proj import Tables
 
-N_VARIANTS = 8
+N_VARIANTS = 9
 
 
 def _same(a: str, b: str) -> bool:
@@ -305,6 +305,41 @@ def nonascii(src: str, rng: random.Random, p=0.4) -> str:
     return res if k1 == k2 else src
 
 
+def tight(src: str, rng: random.Random, p=0.6) -> str:
+    """Remove the whitespace between a closing bracket / string and a following keyword or name, and between a keyword
+    and an opening bracket / string (`x if (a) else y` -> `x if(a)else y`) where the text still denotes the same tree."""
+    try:
+        toks = _toks(src)
+    except (tokenize.TokenError, IndentationError, SyntaxError):
+        return src
+    lines = src.split('\n')
+    spots = []
+    fs = 0
+    for a, b in zip(toks, toks[1:]):
+        if a.type == getattr(tokenize, 'FSTRING_START', -1):
+            fs += 1
+        elif a.type == getattr(tokenize, 'FSTRING_END', -2):
+            fs -= 1
+        if fs or a.end[0] != b.start[0] or a.end[1] >= b.start[1]:
+            continue
+        left_closed = (a.type == tokenize.OP and a.string in ')]}') or a.type == tokenize.STRING
+        right_open = (b.type == tokenize.OP and b.string in '([{') or b.type == tokenize.STRING
+        if (left_closed and b.type in (tokenize.NAME, tokenize.NUMBER)) or (a.type == tokenize.NAME and right_open
+                                                                            and a.string in ('if', 'else', 'and', 'or', 'not', 'in', 'is', 'return', 'yield', 'assert', 'del', 'for', 'while', 'elif', 'lambda', 'await', 'from', 'with', 'as', 'raise', 'except', 'case', 'match')):
+            spots.append((a.end[0], a.end[1], b.start[1]))
+    for ln, c0, c1 in sorted(spots, reverse=True):
+        if rng.random() > p:
+            continue
+        text = lines[ln - 1]
+        if not text[c0:c1].strip() == '' or not text.isascii():
+            continue
+        trial = lines[:]
+        trial[ln - 1] = text[:c0] + text[c1:]
+        if _same(src, '\n'.join(trial)):
+            lines = trial
+    return '\n'.join(lines)
+
+
 def variant(src: str, v: int, seed: int) -> str:
     """Deterministic layout variant `v` of `src` (0 = as written)."""
     rng = random.Random(seed * 31 + v)
@@ -325,7 +360,9 @@ def variant(src: str, v: int, seed: int) -> str:
     if v == 7:
         s = src
         for f in rng.sample([trailing_comments, own_line_comments, redundant_parens, continuations, semicolons,
-                             nonascii], 3):
+                             nonascii, tight], 3):
             s = f(s, rng)
         return s
+    if v == 8:
+        return tight(redundant_parens(src, rng, p=0.5), rng)
     return src
